@@ -5,6 +5,7 @@ import (
 	bcrpb "github.com/google/fhir/go/proto/google/fhir/proto/r4/core/resources/bundle_and_contained_resource_go_proto"
 	parpb "github.com/google/fhir/go/proto/google/fhir/proto/r4/core/resources/parameters_go_proto"
 	ppb "github.com/google/fhir/go/proto/google/fhir/proto/r4/core/resources/patient_go_proto"
+	"github.com/verily-src/fhirpath-go/fhirpath/verifh/ftab"
 	"google.golang.org/protobuf/types/known/anypb"
 	"sort"
 	"strings"
@@ -13,7 +14,6 @@ import (
 	"github.com/verily-src/fhirpath-go/fhirpath"
 	"github.com/verily-src/fhirpath-go/fhirpath/compopts"
 	"github.com/verily-src/fhirpath-go/fhirpath/evalopts"
-	"github.com/verily-src/fhirpath-go/fhirpath/internal/funcs"
 	"github.com/verily-src/fhirpath-go/fhirpath/patch"
 	"github.com/verily-src/fhirpath-go/fhirpath/system"
 	"github.com/verily-src/fhirpath-go/fhirpath/verifh/core"
@@ -235,7 +235,7 @@ func init() {
 			}
 			nTok := c10Count(len(toks), tokLen)
 			nByte := c10Count(len(c01Bytes), byteLen)
-			tbl := funcs.AddExperimentalFuncs(funcs.Clone())
+			tbl := ftab.Table(true)
 			var fnames []string
 			for k := range tbl {
 				fnames = append(fnames, k)
@@ -367,7 +367,7 @@ func init() {
 						return []fhirpath.EvaluateOption{evalopts.OverrideTime(lib.PinnedNow), evalopts.EnvVariable("r", recv), evalopts.EnvVariable("multi", system.Collection{system.Integer(1), system.String("a")}),
 							evalopts.EnvVariable("elem", fhir.String("abc")), evalopts.EnvVariable("complex", lib.NameA())}
 					}
-					for n := fn.MinArity; n <= fn.MaxArity && n <= 4; n++ {
+					for n := fn.Min; n <= fn.Max && n <= 4; n++ {
 						var tuples [][]string
 						switch {
 						case n == 0:
@@ -425,7 +425,7 @@ func init() {
 					var zero []*fhirpath.Expression
 					var zsrc []string
 					for _, name := range fnames {
-						if tbl[name].MinArity == 0 {
+						if tbl[name].Min == 0 {
 							if e, err := fhirpath.Compile("%x."+name+"()", compopts.WithExperimentalFuncs()); err == nil {
 								zero = append(zero, e)
 								zsrc = append(zsrc, "."+name+"()")
